@@ -218,7 +218,15 @@ func ehEndpoint(modName string, extra []config.Node) (*Endpoint, *ehListener, er
 	nodes := []config.Node{
 		{Name: "hostname", Args: []string{"mx.verif.example"}},
 		{Name: "tls", Args: []string{"off"}},
-		{Name: "buffer", Args: []string{"ram"}},
+	}
+	hasBuffer := false
+	for _, n := range extra {
+		if n.Name == "buffer" {
+			hasBuffer = true
+		}
+	}
+	if !hasBuffer {
+		nodes = append(nodes, config.Node{Name: "buffer", Args: []string{"ram"}})
 	}
 	nodes = append(nodes, extra...)
 	if err := endp.Init(config.NewMap(map[string]interface{}{}, config.Node{Children: nodes})); err != nil {
